@@ -29,6 +29,10 @@ pub struct Cfg {
     /// session OTI = Reed-Solomon GF(2^8) with two parity symbols: the FDT instances carry repair packets
     #[serde(default)]
     pub sess_rs: bool,
+    /// the FDT's own carousel: 0 = 1 s between transfers (default), 1 = 2 s between start times, 2 = zero delay,
+    /// 3 = zero interval
+    #[serde(default)]
+    pub fdt_carousel: u8,
 }
 
 pub fn catalog_of(kind: u8) -> Vec<ObjSpec> {
@@ -64,6 +68,12 @@ pub fn catalog() -> Vec<ObjSpec> {
 pub fn sess(c: &Cfg) -> SessSpec {
     let mut s = SessSpec::basic(if c.sess_rs { OtiSpec::new(Scheme::Rs28, 256, 64, 2, true) } else if c.sess_raptor { OtiSpec::new(Scheme::Rs28, 512, 64, 0, true) } else { OtiSpec::new(Scheme::NoCode, c.fdt_e, 64, 0, true) });
     s.full_fdt = c.full_fdt;
+    s.fdt_carousel = match c.fdt_carousel {
+        1 => Carousel::Interval(2000),
+        2 => Carousel::Delay(0),
+        3 => Carousel::Interval(0),
+        _ => Carousel::Delay(1000),
+    };
     s.queues = (0..c.queues).map(|q| (q as u32, c.multiplex)).collect();
     s
 }
@@ -282,12 +292,12 @@ pub fn configs() -> Vec<Cfg> {
                     if fdt_e == 1424 && (multiplex == 2 || queues == 1) {
                         continue;
                     }
-                    v.push(Cfg { full_fdt, multiplex, queues, fdt_e, catalog_kind: 0, sess_raptor: false, sess_rs: false });
+                    v.push(Cfg { full_fdt, multiplex, queues, fdt_e, catalog_kind: 0, sess_raptor: false, sess_rs: false, fdt_carousel: 0 });
                     if fdt_e == 512 {
-                        v.push(Cfg { full_fdt, multiplex, queues, fdt_e, catalog_kind: 1, sess_raptor: false, sess_rs: false });
-                        v.push(Cfg { full_fdt, multiplex, queues, fdt_e, catalog_kind: 2, sess_raptor: false, sess_rs: false });
+                        v.push(Cfg { full_fdt, multiplex, queues, fdt_e, catalog_kind: 1, sess_raptor: false, sess_rs: false, fdt_carousel: 0 });
+                        v.push(Cfg { full_fdt, multiplex, queues, fdt_e, catalog_kind: 2, sess_raptor: false, sess_rs: false, fdt_carousel: 0 });
                         if queues == 2 {
-                            v.push(Cfg { full_fdt, multiplex, queues, fdt_e, catalog_kind: 3, sess_raptor: false, sess_rs: false });
+                            v.push(Cfg { full_fdt, multiplex, queues, fdt_e, catalog_kind: 3, sess_raptor: false, sess_rs: false, fdt_carousel: 0 });
                         }
                     }
                 }
@@ -296,13 +306,20 @@ pub fn configs() -> Vec<Cfg> {
     }
     // FDT instances protected by repair packets
     for full_fdt in [true, false] {
-        v.push(Cfg { full_fdt, multiplex: 2, queues: 1, fdt_e: 512, catalog_kind: 0, sess_raptor: false, sess_rs: true });
-        v.push(Cfg { full_fdt, multiplex: 1, queues: 2, fdt_e: 512, catalog_kind: 1, sess_raptor: false, sess_rs: true });
+        v.push(Cfg { full_fdt, multiplex: 2, queues: 1, fdt_e: 512, catalog_kind: 0, sess_raptor: false, sess_rs: true, fdt_carousel: 0 });
+        v.push(Cfg { full_fdt, multiplex: 1, queues: 2, fdt_e: 512, catalog_kind: 1, sess_raptor: false, sess_rs: true, fdt_carousel: 0 });
+    }
+    // the FDT's own carousel mode
+    for full_fdt in [true, false] {
+        for fdt_carousel in 1..=3u8 {
+            v.push(Cfg { full_fdt, multiplex: 1, queues: 1, fdt_e: 512, catalog_kind: 0, sess_raptor: false, sess_rs: false, fdt_carousel });
+        }
+        v.push(Cfg { full_fdt, multiplex: 2, queues: 2, fdt_e: 1424, catalog_kind: 1, sess_raptor: false, sess_rs: false, fdt_carousel: 1 });
     }
     // publications that fail (see `sess_raptor`)
     for full_fdt in [true, false] {
-        v.push(Cfg { full_fdt, multiplex: 1, queues: 1, fdt_e: 512, catalog_kind: 0, sess_raptor: true, sess_rs: false });
-        v.push(Cfg { full_fdt, multiplex: 2, queues: 2, fdt_e: 512, catalog_kind: 0, sess_raptor: true, sess_rs: false });
+        v.push(Cfg { full_fdt, multiplex: 1, queues: 1, fdt_e: 512, catalog_kind: 0, sess_raptor: true, sess_rs: false, fdt_carousel: 0 });
+        v.push(Cfg { full_fdt, multiplex: 2, queues: 2, fdt_e: 512, catalog_kind: 0, sess_raptor: true, sess_rs: false, fdt_carousel: 0 });
     }
     v
 }
